@@ -1852,6 +1852,11 @@ func (a *analysis) stmt(s ast.Stmt, label string) {
 		for _, r := range x.Results {
 			a.expr(r, cRead)
 		}
+		// return statements of listed functions are call facts too ("return(F)"): their lockset and
+		// must-/may-have-called sets say what every exit of F has done (C12: Transport.grabPool)
+		if a.cur != nil && returnsOfInterest[a.cur.name] {
+			a.recordCall("return("+a.cur.name+")", "HCall", x.Pos())
+		}
 		a.st = bottom()
 	case *ast.BranchStmt:
 		lbl := ""
@@ -3069,6 +3074,13 @@ var callsOfInterest = map[string]bool{
 	"connPool.grabClusterConn": true, "connPool.update": true, "connPool.setState": true,
 	"connPool.grabState": true, "connPool.discover": true, "connPool.unref": true, "connPool.setReady": true,
 	"async.await": true, "async.resolve": true, "async.reject": true, "reject": true,
+	// the pool's reference count (Model/Routing.v rpool, C12)
+	"connPool.ref": true,
+}
+
+// functions whose return statements are emitted as call facts "return(F)"
+var returnsOfInterest = map[string]bool{
+	"Transport.grabPool": true,
 }
 
 // interest table: package (path suffix after the module path) -> type names
